@@ -45,10 +45,9 @@ def run_one(base, case, run):
         src_lang = os.path.join(os.environ['PYTHONPATH'].split(os.pathsep)[-1], 'nunavut', 'lang', case['lang'])
         for sub, dst in (('templates', 'tpl'), ('support', 'stpl')):
             os.makedirs(os.path.join(loc, dst), exist_ok=True)
-            for n in sorted(os.listdir(os.path.join(src_lang, sub))):
-                fp = os.path.join(src_lang, sub, n)
-                if os.path.isfile(fp) and not n.endswith(('.py', '.pyc')):
-                    shutil.copy(fp, os.path.join(loc, dst, n))
+            shutil.rmtree(os.path.join(loc, dst))
+            shutil.copytree(os.path.join(src_lang, sub), os.path.join(loc, dst),
+                            ignore=shutil.ignore_patterns('*.py', '*.pyc', '__pycache__'))
     out = os.path.join(loc, 'out')
     shutil.rmtree(out, ignore_errors=True)
     if run['cwd'] == 'loc':
